@@ -76,7 +76,8 @@ var serialisedAt = map[string]bool{} // test goroutine only
 
 var errInjected = errors.New("verif: injected I/O fault")
 
-// SigCommitSyncFault: see TestRegression_CompactionCommitSyncFailureThenReopen.
+// SigCommitSyncFault is the signature of the defect this test found (repaired in /repo, listed as
+// fixed): see TestRegression_CompactionCommitSyncFailureThenReopen.
 const SigCommitSyncFault = "C03/compaction-commit-sync-failure-record-stays-in-manifest"
 
 // seamPoint is one intercepted file-system operation of the compaction under observation.
@@ -298,8 +299,8 @@ func (c *commitEnv) judge(got *state, who string) {
 func sameFiles(a, b *layout) bool { return fmt.Sprint(a.FileLevel) == fmt.Sprint(b.FileLevel) }
 
 // probedCompact runs one compaction under observation and judges everything seen at its seams.
-// It returns whether the compaction changed the files, whether the shape listed under
-// SigCommitSyncFault was produced, and the images taken (recovered by the caller).
+// It returns whether the compaction changed the files and whether a manifestSync fault fired
+// (the shape of SigCommitSyncFault); the images taken are recovered by the caller.
 func (c *commitEnv) probedCompact(force bool) (changed bool, syncFaulted bool) {
 	before, layBefore := c.observe()
 	c.checkAgainstModel(before, "before the observed compaction")
@@ -598,17 +599,12 @@ func runCommitCase(t *rapid.T) {
 	}
 	_, syncFaulted := c.probedCompact(force)
 
-	excluded := syncFaulted && ev.Known(SigCommitSyncFault)
-	if excluded {
-		// listed finding: the record of the failed commit stays in the manifest; the live store is
-		// still judged, its files are not opened again (no image, no reopen)
-		c.classes["excluded_known_reopen_after_commit_sync_fault"] = true
-		for _, p := range c.points {
-			if p.img != "" && p.afterFault {
-				_ = os.RemoveAll(p.img)
-				p.img = ""
-			}
-		}
+	if syncFaulted {
+		// the record of the failed commit reached the manifest file: reopen and the images taken after
+		// the fault are judged like every other (a store that kept appending to that manifest fails here,
+		// see TestRegression_CompactionCommitSyncFailureThenReopen). Exactly ONE operation fails per case,
+		// so the replacement of the manifest that follows a failed persist is never hit by a second fault.
+		c.classes["reopen-and-images-after-a-commit-sync-fault"] = true
 	}
 	deepSalt := rapid.IntRange(0, 2).Draw(t, "imagesCompactedAfterRecovery")
 	c.recoverImages(shared, func(i int) bool { return (i+deepSalt)%3 == 0 })
@@ -621,23 +617,21 @@ func runCommitCase(t *rapid.T) {
 	e.compact(true)
 	canon.WriteString("C;")
 	c.classes["further-compaction"] = true
-	if !excluded {
-		e.history = append(e.history, "reopen")
-		e.close()
-		e.open()
-		got, _ := e.observe()
-		e.checkAgainstModel(got, "after reopen")
-		c.judge(got, "reader after close + reopen")
-		c.classes["reopen"] = true
-		canon.WriteString("R;")
-		if steps&2 != 0 {
-			flushN(1)
-		}
-		e.compact(steps&4 != 0)
-		got, _ = e.observe()
-		c.judge(got, "reader after the compaction that followed the reopen")
-		canon.WriteString("C;")
+	e.history = append(e.history, "reopen")
+	e.close()
+	e.open()
+	got, _ := e.observe()
+	e.checkAgainstModel(got, "after reopen")
+	c.judge(got, "reader after close + reopen")
+	c.classes["reopen"] = true
+	canon.WriteString("R;")
+	if steps&2 != 0 {
+		flushN(1)
 	}
+	e.compact(steps&4 != 0)
+	got, _ = e.observe()
+	c.judge(got, "reader after the compaction that followed the reopen")
+	canon.WriteString("C;")
 	e.close()
 
 	classes := make([]string, 0, len(e.classes))
